@@ -1697,7 +1697,12 @@ class Lowering:
                     if pending_anon is None:
                         raise LoweringError('anonymous field without record')
                     kw = 'union' if pending_anon.get('tagUsed') == 'union' else 'struct'
-                    out.append(I + kw + ' {')
+                    if kw == 'union' and r.get('name') in getattr(self, 'disjoint_unions', ()):
+                        # group option disjoint_unions: the members of this discriminated union are laid out
+                        # side by side (sound iff the code only reads the member it last wrote; see DESIGN 9.8)
+                        kw = 'struct'
+                        self.disjoint_fired = True
+                    out.append(I + kw + ' {' + (' /* disjoint layout of a discriminated union */' if kw == 'struct' and pending_anon.get('tagUsed') == 'union' else ''))
                     out.extend(self._fields(pending_anon, lvl + 1))
                     out.append(I + '};')
                     pending_anon = None
